@@ -142,6 +142,14 @@ func (deployctlEngine) Run(inAny any) (res any) {
 		Annotations: map[string]string{util.BatchReleaseControlAnnotation: controlInfo, v1alpha1.DeploymentStrategyAnnotation: util.DumpJSON(&strategy)}},
 		Spec: apps.DeploymentSpec{Replicas: &n32, Paused: true, Selector: &metav1.LabelSelector{MatchLabels: map[string]string{"app": "demo"}}, Template: dTemplate("new"),
 			Strategy: apps.DeploymentStrategy{Type: apps.RecreateDeploymentStrategyType}}}
+	// the status a previous sync left behind: it counts the pods of all ReplicaSets (calculateStatus)
+	total := in.New.Spec
+	availTotal := in.New.Avail
+	for _, o := range in.Olds {
+		total += o.Spec
+		availTotal += o.Avail
+	}
+	d.Status = apps.DeploymentStatus{ObservedGeneration: 2, Replicas: int32(total), UpdatedReplicas: int32(in.New.Spec), AvailableReplicas: int32(availTotal), ReadyReplicas: int32(availTotal)}
 	tr := true
 	owner := metav1.OwnerReference{APIVersion: "apps/v1", Kind: "Deployment", Name: "web", UID: "d-uid", Controller: &tr, BlockOwnerDeletion: &tr}
 	base := time.Now().Add(-time.Hour)
